@@ -377,7 +377,26 @@ def gen_expr(rng, nv, depth=0):
 def gen_con(rng, nv, doms):
     r = rng.random()
     idx = list(range(nv))
-    if r < 0.07:
+    if r < 0.05:
+        # the two sides are the same linear function written differently (x + y vs y + x, 2*x vs x + x, (x - y) + (y - x) vs 0),
+        # possibly shifted by a constant: every variable cancels, the constraint is a tautology or a contradiction
+        i = rng.randrange(nv)
+        j = rng.randrange(nv)
+        shapes = [
+            (["add", _v(i), _v(j)], ["add", _v(j), _v(i)]),
+            (["rmul", 2, _v(i)], ["add", _v(i), _v(i)]),
+            (["add", ["sub", _v(i), _v(j)], ["sub", _v(j), _v(i)]], _c(0)),
+            (["add", ["rmul", 0, _v(i)], _c(1)], _c(1)),
+            (["sub", ["add", _v(i), _v(j)], _v(j)], _v(i)),
+            (["mul", ["add", _v(i), _v(j)], 2], ["add", ["rmul", 2, _v(j)], ["mul", _v(i), 2]]),
+        ]
+        lhs, rhs = rng.choice(shapes)
+        if rng.random() < 0.3:
+            rhs = ["add", rhs, _c(rng.choice([1, -1]))]
+        if rng.random() < 0.3:
+            lhs, rhs = rhs, lhs
+        return ["cmp", rng.choice(["eq", "ne", "ne"]), lhs, rhs]
+    if r < 0.1:
         # a plain signed sum k1*x + k2*y (+ k3*z) with negative multipliers, compared with a value it can actually take: every term
         # matters for the set of solutions
         k = rng.randint(1, min(3, nv))
@@ -509,5 +528,14 @@ def gen_cumulative_wide(rng):
     """cumulative over a window long enough that a time point has > 10 candidate literals"""
     nv = rng.randint(3, 4)
     vars_ = [["s%d" % i, 0, rng.randint(3, 4)] for i in range(nv)]
-    cons = [["cumulative", list(range(nv)), [rng.randint(2, 4) for _ in range(nv)], [rng.randint(1, 2) for _ in range(nv)], rng.randint(1, 3)]]
+    dem = [rng.randint(1, 3) for _ in range(nv)]
+    if rng.random() < 0.5:
+        dem = sorted(dem)                  # light tasks listed first: a minimal overloaded set need not be a prefix of the task list
+    cap = rng.randint(max(1, max(dem) - (1 if rng.random() < 0.15 else 0)), max(max(dem), sum(dem) - 1))
+    if rng.random() < 0.5:
+        # one light task listed first, heavy ones after it; two heavy ones overload the resource, one heavy plus the light one do not
+        h = rng.randint(2, 3)
+        dem = [1] + [h] * (nv - 1)
+        cap = rng.randint(h, 2 * h - 2) if rng.random() < 0.8 else 2 * h - 1
+    cons = [["cumulative", list(range(nv)), [rng.randint(2, 4) for _ in range(nv)], dem, cap]]
     return {"vars": vars_, "cons": cons, "solves": [dict(s) for s in SOLVES]}
